@@ -385,7 +385,16 @@ func runRace(t *rapid.T) {
 			})
 		}
 		simrt.Go("poller", func() {
-			for w.scr.PollEvent() != nil {
+			for {
+				ev := w.scr.PollEvent()
+				if ev == nil {
+					return
+				}
+				if ce, ok := ev.(*tcell.EventClipboard); ok {
+					// the application looks at the payload a little later
+					simrt.Yield("use-clipboard")
+					tcell.VerifTouchBytes(ce.Data())
+				}
 			}
 		})
 		simrt.Go("term", func() {
@@ -477,8 +486,11 @@ func runRace(t *rapid.T) {
 			case "Stop":
 				started = false
 			case "Write":
-				if !started && strings.HasPrefix(c.G, "tscreen.go:") {
-					w.failf("C10/write-after-stop", "tty call #%d: the library's goroutine %s writes %d bytes to a terminal the screen has stopped (Suspend/Fini returned it)", c.At, c.G, c.N)
+				if !started && !c.Err && c.N > 0 {
+					// (the library's own goroutines must be gone by then, and a
+					// Screen call made while suspended writes nothing either: a
+					// write here is a frame that was held across Suspend/Fini)
+					w.failf("C10/write-after-stop", "tty call #%d: goroutine %s writes %d bytes to a terminal the screen has stopped (Suspend/Fini handed it back)", c.At, c.G, c.N)
 				}
 			}
 		}
